@@ -1020,6 +1020,37 @@ func guardedSlice(f *ssa.Function, x *ssa.Slice, at *ssa.BasicBlock) string {
 			}
 		}
 	}
+	// s[k:] with a constant k under a dominating test that len(s) >= k
+	if x.Low != nil && x.High == nil && x.Max == nil {
+		if k, ok := constInt64(x.Low); ok && k >= 0 {
+			if k == 0 {
+				return "s[0:]"
+			}
+			for _, ob := range f.Blocks {
+				iff := blockIf(ob)
+				if iff == nil {
+					continue
+				}
+				c2, ok := iff.Cond.(*ssa.BinOp)
+				if !ok || !isLenOf(c2.X, x.X) {
+					continue
+				}
+				kk, ok := constInt64(c2.Y)
+				if !ok {
+					continue
+				}
+				switch {
+				case c2.Op == token.GTR && kk >= k-1 && condEdgeDominates(ob, true, at),
+					c2.Op == token.GEQ && kk >= k && condEdgeDominates(ob, true, at),
+					c2.Op == token.EQL && kk == 0 && k == 1 && condEdgeDominates(ob, false, at),
+					c2.Op == token.NEQ && kk == 0 && k == 1 && condEdgeDominates(ob, true, at),
+					c2.Op == token.LSS && kk <= k && kk >= k && condEdgeDominates(ob, false, at),
+					c2.Op == token.LEQ && kk == k-1 && condEdgeDominates(ob, false, at):
+					return fmt.Sprintf("s[%d:] under a dominating test that len(s) >= %d", k, k)
+				}
+			}
+		}
+	}
 	if x.Low == nil && x.High != nil {
 		if k, ok := constInt64(x.High); ok && k == 0 {
 			return "s[:0]"
